@@ -30,6 +30,8 @@ func execLine(line string) string {
 			return "case"
 		case "gen":
 			return execGen(t[1:])
+		case "frame":
+			return execFrame(t[1:])
 		case "read":
 			return execRead(t[1:])
 		case "packed":
@@ -45,6 +47,7 @@ var Shard, Shards = 0, 1
 
 var generators = map[string]func(rec *lib.Rec, r *lib.Rng, thorough bool){
 	"C13": genC13,
+	"C14": genC14,
 	"C01": genC01,
 	"C02": genC02,
 	"C03": genC03,
